@@ -63,6 +63,17 @@ CLAIMS = {
               "0 <= int(zsa) <= nz) are declared, not derived. The real kernels are run in interpreter mode under a "
               "strict-index proxy (out-of-range and wrap-around negative indices) on 1-cell-thick models, boundary "
               "sources/end points, both ray modes and exact step budgets; thorough adds NUMBA_BOUNDSCHECK=1 JIT runs.")),
+    "C08": dict(
+        category="proof", design_ref="DESIGN.md §8 C08",
+        technique="Lean 4 theorem over all interleavings of an own-slot parallel loop + mapM refinement of the list wrappers + AST effect summaries + bit-level list-vs-single JIT runs over thread counts/chunk sizes/layers",
+        text=("Proved: for a parallel loop whose iterations write only to their own output slot, every interleaving of "
+              "the iterations' individual write events (any thread count, chunking, order) leaves at every location what "
+              "the sequential loop leaves; the list wrappers of the solvers and ray tracers equal mapM of the single call "
+              "(same results in input order, same exception). That the eight *_vectorized loops are such bodies (one slot "
+              "assignment per iteration, outputs allocated locally, kernels write no parameter, no module-level state) is "
+              "re-extracted from the AST and re-checked in Lean on every run. numba's implementation of prange is outside "
+              "the model: the real code is run under JIT for thread counts 1..16, list lengths around the thread count, "
+              "chunk sizes, repetitions, concurrent callers and (thorough) the workqueue layer, comparing bit-for-bit.")),
 }
 
 WIP = "check not registered yet in this revision (model/theorems under construction); see DESIGN.md §8"
